@@ -59,6 +59,16 @@ def gen(rng, n):
                       "ALL_STREAMS_SEEN": 1})
             for k in ("DROP_MASK", "DROP_MASK_DIR", "DUP_MASK", "NO_REDO", "EARLY_STOP", "SERVER_RWND", "NDGRAM", "SEND_WINDOW"):
                 d.pop(k, None)
+        elif rng.chance(1, 5):
+            # the client raises the number of streams the server may open while the (accepted or rejected)
+            # 0-RTT phase is running: the limit it announced in a 0-RTT packet must reach the server
+            # again after a rejection - the server application needs all of it
+            d.update({"ZERO_RTT": rng.choice([2, 2, 1]), "LOSS": 0, "DUP": 0, "MAX_UNI": rng.choice([0, 1]),
+                      "SERVER_STREAMS": rng.choice([3, 4]), "NEW_MAXSTREAMS_SIDE": 0, "NEW_MAX_UNI": rng.choice([4, 8]),
+                      "NEW_MAXSTREAMS_AT": 1, "NBIDI": 1, "NUNI": 0, "STREAM_BYTES": rng.choice([700, 3000]),
+                      "EXPECT_SERVER_STREAMS": 1, "READ_SERIAL": 200000})
+            for k in ("DROP_MASK", "DROP_MASK_DIR", "DUP_MASK", "NO_REDO", "EARLY_STOP", "SERVER_RWND", "NDGRAM", "SEND_WINDOW", "RETRY", "MAX_BIDI"):
+                d.pop(k, None)
         w = min(d.get("SERVER_RWND", 1 << 40), d.get("SEND_WINDOW", 1 << 40))
         if d["STREAM_BYTES"] > 20 * w:
             d["STREAM_BYTES"] = 20 * w
